@@ -118,7 +118,9 @@ def c14_struct(tier="quick", seed=0):
     import ast
     out = []
     ex = S.decoder_sets(S.fn("microjs.vm", "VM._execute"))
-    cb = S.decoder_sets(S.fn("microjs.vm", "VM._call_callback"))
+    # the second run loop (nested loop for callbacks): whichever other VM method dispatches opcodes
+    others = [f for f in S.dispatchers() if f.name != "_execute"]
+    cb = S.decoder_sets(others[0]) if len(others) == 1 else []
     ok_shape = len(ex) == 2 and len(cb) == 2
     out.append(ob("C14.struct.decoder-shape", ok_shape, "K3", f"decoder branches found: _execute {len(ex)}, _call_callback {len(cb)}"))
     if not ok_shape:
